@@ -202,7 +202,12 @@ func (e *c14Env) client(proto string, dc, auto bool) *Client {
 	if c, ok := e.cli[key]; ok {
 		return c
 	}
-	c := C().DisableAutoReadResponse().SetTimeout(30 * time.Second)
+	c := C().SetTimeout(30 * time.Second)
+	if strings.HasSuffix(proto, "-autoread") {
+		proto = strings.TrimSuffix(proto, "-autoread") // the default client: reads the body itself
+	} else {
+		c.DisableAutoReadResponse()
+	}
 	if dc {
 		c.DisableCompression()
 	}
@@ -811,6 +816,318 @@ func TestVerif_C14_cross(t *testing.T) {
 		if hist[k] == 0 {
 			t.Errorf("bucket %s not reached", k)
 		}
+	}
+	s.Finish()
+}
+
+// TestVerif_C14_h1gz: transport.go's own gzipReader (the HTTP/1.1 gzip branch) over a
+// bodyEOFSignal, driven like the unit lane of internal/compress: valid / truncated /
+// bit-flipped / foreign streams, generated read sizes, reads after the end, Close before or
+// after j reads; vs the model automaton `h1gzRead` over the reference library's result.
+func TestVerif_C14_h1gz(t *testing.T) {
+	s := verifh.New(t, "C14", "h1gz",
+		"transport.go gzipReader{body: bodyEOFSignal{src}}: gzip streams {valid, multi-member, truncated at every offset of small streams + random, bit-flip, trailing garbage, not gzip, empty, body ending in a framing error} x chunked underlying body x 1-4 cycling Read sizes x {to the end + reads after it, Close before/after j reads}; model = h1gzRead over (gzip.NewReader result, output, end) of compress/gzip used directly; oracle: valid => payload+EOF, truncated => error, nothing after the end")
+	r := s.Rand()
+	hist := map[string]int{}
+	count := func(k string) { s.Count(k); hist[k]++ }
+	type stream struct {
+		kind          string
+		payload, wire []byte
+		fin           error
+	}
+	var streams []stream
+	for _, pc := range []int{0, 1, 2} {
+		p := verifc14.Payload(r, pc)
+		if len(p) > 120 {
+			p = p[:120]
+		}
+		w := verifc14.Compress("gzip", p)
+		streams = append(streams, stream{"valid", p, w, io.EOF})
+		for cut := 1; cut < len(w); cut++ {
+			streams = append(streams, stream{"trunc", p, w[:cut], io.EOF})
+		}
+	}
+	for i, n := 0, verifh.N(400, 20000); i < n; i++ {
+		pc := r.Intn(4)
+		if r.Intn(50) == 0 {
+			pc = 4
+		}
+		p := verifc14.Payload(r, pc)
+		w := verifc14.Compress("gzip", p)
+		switch r.Intn(9) {
+		case 0, 1:
+			streams = append(streams, stream{"valid", p, w, io.EOF})
+		case 2:
+			streams = append(streams, stream{"trunc", p, w[:1+r.Intn(len(w)-1)], io.EOF})
+		case 3:
+			f := append([]byte(nil), w...)
+			f[r.Intn(len(f))] ^= 1 << uint(r.Intn(8))
+			streams = append(streams, stream{"flip", p, f, io.EOF})
+		case 4:
+			streams = append(streams, stream{"trail", p, append(append([]byte(nil), w...), byte(r.Intn(256)), byte(r.Intn(256))), io.EOF})
+		case 5:
+			streams = append(streams, stream{"wrongfmt", p, verifc14.Compress(verifh.Pick(r, []string{"deflate", "br", "zstd"}), p), io.EOF})
+		case 6:
+			p2 := verifc14.Payload(r, r.Intn(4))
+			streams = append(streams, stream{"multi", append(append([]byte(nil), p...), p2...), append(append([]byte(nil), w...), verifc14.Compress("gzip", p2)...), io.EOF})
+		case 7:
+			streams = append(streams, stream{"srcerr", p, w[:r.Intn(len(w))], io.ErrUnexpectedEOF})
+		default:
+			streams = append(streams, stream{"empty", nil, nil, io.EOF})
+		}
+	}
+	for i, st := range streams {
+		open, out, term := verifc14.Ref("gzip", st.wire, st.fin)
+		if len(out) > 8192 {
+			out, st.payload = nil, nil
+			st.wire, st.kind, st.fin = nil, "empty", io.EOF
+			open, out, term = verifc14.Ref("gzip", nil, io.EOF)
+		}
+		sizes := verifc14.Sizes(r)
+		var extra []int
+		for k := r.Intn(4); k > 0; k-- {
+			extra = append(extra, 1+r.Intn(64))
+		}
+		if open != "ok" && r.Intn(2) == 0 {
+			extra = append(extra, 0)
+		}
+		closeAfter := -1
+		if r.Intn(4) == 0 {
+			closeAfter = r.Intn(3)
+			if len(extra) == 0 {
+				extra = []int{1 + r.Intn(9)}
+			}
+			if r.Intn(2) == 0 {
+				extra = append(extra, 0) // read on a closed body: sticky for empty buffers too
+			}
+		}
+		src := &verifc14.Src{Data: append([]byte(nil), st.wire...), Fin: st.fin}
+		if r.Intn(2) == 0 {
+			src.Chunk = 1 + r.Intn(40)
+		}
+		var got string
+		var raw []byte
+		id := fmt.Sprintf("h1gz/%s#%d", st.kind, i)
+		human := fmt.Sprintf("h1 gzipReader %s payload=%dB wire=%dB sizes=%v closeAfter=%d extra=%v ref=(%s,%dB,%s)", st.kind, len(st.payload), len(st.wire), sizes, closeAfter, extra, open, len(out), term)
+		if p, bad := verifh.Safely(func() {
+			gz := &gzipReader{body: &bodyEOFSignal{body: src}}
+			got, raw = c14Script(gz, out, closeAfter, sizes, extra)
+			gz.Close()
+		}); bad {
+			s.Crash(id, human, p, "")
+			continue
+		}
+		ok := true
+		var gotData, gotTerm string
+		fmt.Sscanf(got, "data=%s t=%s", &gotData, &gotTerm)
+		if closeAfter < 0 {
+			switch st.kind {
+			case "valid", "multi":
+				ok = gotData == verifh.Hex(string(st.payload)) && gotTerm == "eof"
+			case "trunc", "srcerr":
+				ok = strings.HasPrefix(gotTerm, "err")
+				if st.kind == "trunc" && !bytes.HasPrefix(st.payload, raw) {
+					ok = false
+				}
+			case "flip":
+				ok = strings.HasPrefix(gotTerm, "err") || gotData == verifh.Hex(string(st.payload))
+			}
+			if i := strings.Index(got, " after="); i >= 0 && got[i+7:] != "-" {
+				for _, a := range strings.Split(got[i+7:], ",") {
+					if a != "_:"+gotTerm {
+						ok = false
+					}
+				}
+			}
+		}
+		count("kind:" + st.kind)
+		count("end:" + gotTerm)
+		if open != "ok" {
+			count("ctor-error")
+		}
+		if closeAfter >= 0 {
+			count("close")
+		}
+		s.Case("c14reader h1gz "+open+" "+verifh.Hex(string(out))+" "+term+" "+strconv.Itoa(closeAfter)+" "+verifh.IntList(sizes)+" "+verifh.IntList(extra),
+			got, ok, "", st.kind != "empty", human+" -> "+got[:min(len(got), 120)])
+	}
+	for _, k := range []string{"kind:valid", "kind:trunc", "kind:flip", "kind:trail", "kind:wrongfmt", "kind:multi", "kind:srcerr", "kind:empty", "end:eof", "end:err1", "end:err2", "end:*", "ctor-error", "close"} {
+		if hist[k] == 0 {
+			t.Errorf("bucket %s not reached", k)
+		}
+	}
+	s.Finish()
+}
+
+// c14Script drives a reader the way the driver lane `c14reader` does.
+func c14Script(rd io.ReadCloser, expect []byte, closeAfter int, sizes, extra []int) (canon string, raw []byte) {
+	var data []byte
+	term := "-"
+	limit := 4*len(expect) + 4096
+	if closeAfter >= 0 {
+		limit = closeAfter
+	}
+	for i := 0; i < limit; i++ {
+		buf := make([]byte, sizes[i%len(sizes)])
+		n, err := rd.Read(buf)
+		if n < 0 || n > len(buf) {
+			return "bad-count", nil
+		}
+		data = append(data, buf[:n]...)
+		if err != nil {
+			term = c14TermReq(err)
+			break
+		}
+	}
+	if closeAfter >= 0 {
+		rd.Close()
+	}
+	var after []string
+	for _, n := range extra {
+		buf := make([]byte, n)
+		k, err := rd.Read(buf)
+		after = append(after, verifh.Hex(string(buf[:k]))+":"+c14TermReq(err))
+	}
+	d := verifh.Hex(string(data))
+	if strings.HasPrefix(term, "err") {
+		// how much a decoder hands out before it reports an error depends on how its input
+		// arrives; the property is about the error. Garbage is judged by the oracle (rawData).
+		d = "partial"
+	}
+	if closeAfter > 0 {
+		if bytes.HasPrefix(expect, data) {
+			d = "prefix"
+		} else {
+			d = "notprefix"
+		}
+		term = "*"
+	}
+	a := "-"
+	if len(after) > 0 {
+		a = strings.Join(after, ",")
+	}
+	return "data=" + d + " t=" + term + " after=" + a, data
+}
+
+// TestVerif_C14_witness: the theorem witnesses (Req.Props.C14.legacy_*) replayed at the two
+// levels the e2e lanes do not look at: http.RoundTripper level (Transport.RoundTrip: the
+// Response.Body must be a reader - body_is_usable, before http.Client papers over a nil body)
+// and the default Client (automatic body read, charset auto-decoder on a text type), where a
+// nil body is a nil-pointer panic in the caller.
+func TestVerif_C14_witness(t *testing.T) {
+	s := verifh.New(t, "C14", "witness",
+		"the decide-witnesses of legacy_untouched_fails / legacy_body_unusable / legacy_sites_disagree (AutoDecompress + caller Accept-Encoding br + Content-Encoding identity | GZIP | foo | gzip | none, text/plain and octet-stream, GET and HEAD) on the three protocols at (a) Transport.RoundTrip level: Body != nil and readable, (b) default Client with automatic read and charset auto-decoding: no panic, body = bytes sent / original payload; non-trivial = all")
+	e := c14NewEnv(t, "h1", "h2", "h3")
+	defer e.close()
+	r := s.Rand()
+	hist := map[string]int{}
+	text := []byte(strings.Repeat("plain ascii text, long enough to be past every sniffing window. ", 40))
+	type w struct {
+		ce    []string
+		alg   []string
+		ctype string
+		meth  string
+		auto  bool
+		ae    string
+	}
+	var ws []w
+	for _, ct := range []string{"application/octet-stream", "text/plain; charset=utf-8", "text/plain"} {
+		for _, m := range []string{"GET", "HEAD"} {
+			ws = append(ws,
+				w{[]string{"identity"}, nil, ct, m, true, "br"},
+				w{[]string{"GZIP"}, []string{"gzip"}, ct, m, true, "br"},
+				w{[]string{"foo"}, nil, ct, m, true, ""},
+				w{[]string{"gzip"}, []string{"gzip"}, ct, m, true, "br"},
+				w{[]string{"zstd"}, []string{"zstd"}, ct, m, true, ""},
+				w{nil, nil, ct, m, true, "br"},
+				w{[]string{"GZIP"}, []string{"gzip"}, ct, m, false, ""},
+				w{[]string{"gzip, br"}, []string{"gzip", "br"}, ct, m, true, ""},
+			)
+		}
+	}
+	for wi, x := range ws {
+		for _, proto := range []string{"h1", "h2", "h3"} {
+			for _, level := range []string{"transport", "client"} {
+				payload := text
+				if x.ctype == "application/octet-stream" {
+					payload = verifc14.Payload(r, 1+r.Intn(3))
+				}
+				wire, alg := c14Encode(c14Enc{"w", x.ce, x.alg}, payload)
+				c := &c14Case{id: fmt.Sprintf("w-%d-%s-%s", wi, proto, level), proto: proto, auto: x.auto, ae: x.ae, method: x.meth, ce: x.ce,
+					ctype: x.ctype, payload: payload, wire: wire, stream: "valid", alg: alg, framing: "cl", sizes: []int{512}}
+				transportAsked := c.ae == "" && c.method != "HEAD"
+				class := c.class(transportAsked)
+				ce := "-"
+				if len(x.ce) > 0 {
+					ce = x.ce[0]
+				}
+				decode := c.method != "HEAD" && ((transportAsked && strings.EqualFold(ce, "gzip")) || (c.auto && c14Supported(ce)))
+				want := c.wireBody()
+				if decode {
+					want = payload
+				}
+				human := fmt.Sprintf("%s level=%s %s auto=%v callerAE=%q CE=%q type=%q payload=%dB wire=%dB", proto, level, x.meth, x.auto, x.ae, ce, x.ctype, len(payload), len(wire))
+				e.origin.add(c)
+				var got []byte
+				var bodyNil bool
+				var rerr error
+				ptext, bad := verifh.Safely(func() {
+					ctx, cancel := context.WithTimeout(context.Background(), 20*time.Second)
+					defer cancel()
+					if level == "transport" {
+						cl := e.client(proto, false, x.auto)
+						hreq, _ := http.NewRequestWithContext(ctx, x.meth, e.base[proto]+"/", nil)
+						hreq.Header.Set("X-C14-Case", c.id)
+						if x.ae != "" {
+							hreq.Header.Set("Accept-Encoding", x.ae)
+						}
+						var resp *http.Response
+						resp, rerr = cl.GetTransport().RoundTrip(hreq)
+						if rerr != nil {
+							return
+						}
+						if resp.Body == nil {
+							bodyNil = true
+							return
+						}
+						got, rerr = io.ReadAll(resp.Body)
+						resp.Body.Close()
+					} else {
+						cl := e.client(proto+"-autoread", false, x.auto)
+						rq := cl.R().SetContext(ctx).SetHeader("X-C14-Case", c.id)
+						if x.ae != "" {
+							rq.SetHeader("Accept-Encoding", x.ae)
+						}
+						var resp *Response
+						resp, rerr = rq.Send(x.meth, e.base[proto]+"/")
+						if rerr != nil {
+							return
+						}
+						got = resp.Bytes()
+					}
+				})
+				s.Count(level)
+				switch {
+				case bad:
+					s.Crash(c.id, human, ptext, class)
+					s.Count("panic")
+				case rerr != nil:
+					s.Observe(c.id, false, class, true, human+" :: error "+rerr.Error(), rerr.Error())
+				case bodyNil:
+					s.Observe(c.id, false, class, true, human+" :: Response.Body is nil (body_is_usable)", "nil body")
+					s.Count("nil-body")
+				default:
+					ok := bytes.Equal(got, want)
+					if ok {
+						hist["ok"]++
+					}
+					s.Observe(c.id, ok, class, true, human, fmt.Sprintf("got %s want %s", verifc14.Digest(got, "eof"), verifc14.Digest(want, "eof")))
+				}
+			}
+		}
+	}
+	if hist["ok"] == 0 {
+		t.Errorf("bucket ok not reached")
 	}
 	s.Finish()
 }
